@@ -5,7 +5,53 @@ Import ListNotations. Open Scope string_scope.
 Definition pins : list string := ["usim/_primitives/timing.py:interval";
   "usim/_primitives/timing.py:delay";
   "usim/_primitives/notification.py:postpone";
-  "usim/_primitives/notification.py:suspend"].
+  "usim/_primitives/notification.py:suspend";
+  "usim/_primitives/notification.py:<module>";
+  "usim/_primitives/notification.py:Notification.<attrs>";
+  "usim/_primitives/notification.py:Notification.__await__";
+  "usim/_primitives/notification.py:Notification.__awake_all__";
+  "usim/_primitives/notification.py:Notification.__del__";
+  "usim/_primitives/notification.py:Notification.__init__";
+  "usim/_primitives/notification.py:Notification.__subscribe__";
+  "usim/_primitives/notification.py:Notification.__subscription__";
+  "usim/_primitives/notification.py:Notification.__unsubscribe__";
+  "usim/_primitives/timing.py:<module>";
+  "usim/_primitives/timing.py:After.<attrs>";
+  "usim/_primitives/timing.py:After.__await__";
+  "usim/_primitives/timing.py:After.__bool__";
+  "usim/_primitives/timing.py:After.__init__";
+  "usim/_primitives/timing.py:After.__invert__";
+  "usim/_primitives/timing.py:After.__subscribe__";
+  "usim/_primitives/timing.py:After._async_trigger";
+  "usim/_primitives/timing.py:After._ensure_trigger";
+  "usim/_primitives/timing.py:Before.<attrs>";
+  "usim/_primitives/timing.py:Before.__await__";
+  "usim/_primitives/timing.py:Before.__bool__";
+  "usim/_primitives/timing.py:Before.__init__";
+  "usim/_primitives/timing.py:Before.__invert__";
+  "usim/_primitives/timing.py:Delay.<attrs>";
+  "usim/_primitives/timing.py:Delay.__init__";
+  "usim/_primitives/timing.py:Delay.__subscribe__";
+  "usim/_primitives/timing.py:Eternity.<attrs>";
+  "usim/_primitives/timing.py:Eternity.__await__";
+  "usim/_primitives/timing.py:Eternity.__bool__";
+  "usim/_primitives/timing.py:Eternity.__invert__";
+  "usim/_primitives/timing.py:Instant.<attrs>";
+  "usim/_primitives/timing.py:Instant.__await__";
+  "usim/_primitives/timing.py:Instant.__bool__";
+  "usim/_primitives/timing.py:Instant.__invert__";
+  "usim/_primitives/timing.py:Moment.<attrs>";
+  "usim/_primitives/timing.py:Moment.__await__";
+  "usim/_primitives/timing.py:Moment.__bool__";
+  "usim/_primitives/timing.py:Moment.__init__";
+  "usim/_primitives/timing.py:Moment.__subscribe__";
+  "usim/_primitives/timing.py:Moment.__unsubscribe__";
+  "usim/_primitives/timing.py:Time.<attrs>";
+  "usim/_primitives/timing.py:Time.__add__";
+  "usim/_primitives/timing.py:Time.__eq__";
+  "usim/_primitives/timing.py:Time.__ge__";
+  "usim/_primitives/timing.py:Time.__lt__";
+  "usim/_primitives/timing.py:Time.now"].
 (** the functions the model of C14 was transcribed from are unchanged in /repo *)
 Lemma src_unchanged : forallb pin_ok pins = true.
 Proof. vm_compute. reflexivity. Qed.
